@@ -32,6 +32,7 @@ type flight struct {
 
 type Ledger struct {
 	ident   map[pos]string      // position -> native token identity
+	from    map[pos]string      // voucher position -> chain it was received from (previous hop)
 	burnt   map[string]bool     // NFT identities burnt by their holder
 	minted  map[string]uint64   // MT identity -> natively minted units minus user burns (mod 2^64 never reached)
 	flights map[string]*flight  // packet key -> flight
@@ -40,7 +41,7 @@ type Ledger struct {
 }
 
 func newLedger() *Ledger {
-	return &Ledger{ident: map[pos]string{}, burnt: map[string]bool{}, minted: map[string]uint64{}, flights: map[string]*flight{}}
+	return &Ledger{from: map[pos]string{}, ident: map[pos]string{}, burnt: map[string]bool{}, minted: map[string]uint64{}, flights: map[string]*flight{}}
 }
 
 func fkey(p packettypes.Packet) string { return pkeyStr(p) }
@@ -99,6 +100,15 @@ func (g *TransferGen) nftAfterTransfer(c *tibctesting.TestChain, class, id, send
 	}
 	g.led.flights[fkey(*p)] = &flight{tok: tok, sender: sender, srcPos: sp, away: d.AwayFromOrigin, pkt: *p}
 	g.led.order = append(g.led.order, fkey(*p))
+	// direction by provenance: a voucher goes "back" exactly when it is sent to the chain it was
+	// received from; a native token always goes "away"
+	if ok {
+		prev, isVoucher := g.led.from[sp]
+		wantAway := !isVoucher || prev != p.DestinationChain
+		if wantAway != d.AwayFromOrigin {
+			g.w.hit("C04", fmt.Sprintf("direction-misclassified away=%v but-token-came-from=%q dest=%q relay=%q %s", d.AwayFromOrigin, prev, p.DestinationChain, p.RelayChain, fkey(*p)))
+		}
+	}
 	if !d.AwayFromOrigin {
 		delete(g.led.ident, sp) // burnt on the sending chain
 	}
@@ -165,6 +175,7 @@ func (g *TransferGen) nftAfterRecv(c *tibctesting.TestChain, p packettypes.Packe
 			g.w.hit("C04", "away-delivery-reassigned-an-existing-token "+fkey(p))
 		}
 		g.led.ident[k] = fl.tok
+		g.led.from[k] = p.SourceChain
 	} else {
 		// unlock: the released token must be the one this packet's voucher represents
 		if was, ok := g.led.ident[k]; !ok || was != fl.tok {
